@@ -282,6 +282,25 @@ func (x *Exec) quantifier(st *State, kind string, args []Val) Val {
 	if cl == nil {
 		x.fail("%s: third argument must be a function literal", kind)
 	}
+	// constant bounds: expand (keeps the formula quantifier-free; used for comparisons with literal strings
+	// and for finite tables)
+	if lo.Op == "const" && hi.Op == "const" {
+		l, h := lo.SInt().Int64(), hi.SInt().Int64()
+		if h-l <= 64 {
+			var parts []*Term
+			x.spec++
+			for j := l; j < h; j++ {
+				s := st.clone()
+				s.G = True()
+				parts = append(parts, x.inline(s, cl.Fn, cl.Bind, []Val{{C: []*Term{BV(j, 64)}}}, token.NoPos).C[0])
+			}
+			x.spec--
+			if kind == "forall" {
+				return Val{C: []*Term{And(parts...)}}
+			}
+			return Val{C: []*Term{Or(parts...)}}
+		}
+	}
 	k := Fresh("k", BV64)
 	x.spec++
 	x.quant++
@@ -1361,6 +1380,10 @@ func (x *Exec) assumeInitBlock(id int, t types.Type) {
 		vals[k] = v
 		base := x.baseHeapOf(srt)
 		x.assume(True(), Eq(Select(Select(base, bt), off), v))
+		if x.constMem == nil {
+			x.constMem = map[[2]uint64]*Term{}
+		}
+		x.constMem[[2]uint64{bt.U64(), off.U64()}] = v
 	}
 	// follow pointers into init-allocated blocks
 	var rec func(t types.Type, off int)
